@@ -71,7 +71,7 @@ def kinds_for(cfg, rid):
 
 
 def applicable(cfg, rid, active):
-    if cfg.startswith("chain_") and not rid.startswith(("g1_", "g3_", "g4_")):
+    if cfg.startswith("chain_") and not rid.startswith(("g1_", "g3_", "g4_", "g5_")):
         return False  # chains: one parameter (x return entry x kwargs); the two-parameter rows are covered hop by hop
     kinds = kinds_for(cfg, rid)
     if "argparse" in kinds and not grid.argparse_expressible(rid):
